@@ -134,7 +134,17 @@ pub fn outcome_of_result<A: AsRef<str>>(
     res: &LexResult,
     tick: &mut dyn FnMut(),
 ) -> Outcome {
-    let h = panic::catch_unwind(AssertUnwindSafe(|| dump::hash_result(src, res, tick)));
+    outcome_of_result_v(src, res, tick, 0)
+}
+
+/// As `outcome_of_result`, with the accessors called in order `variant`.
+pub fn outcome_of_result_v<A: AsRef<str>>(
+    src: &A,
+    res: &LexResult,
+    tick: &mut dyn FnMut(),
+    variant: u32,
+) -> Outcome {
+    let h = panic::catch_unwind(AssertUnwindSafe(|| dump::hash_result_v(src, res, tick, variant)));
     match h {
         Ok(hash) => Outcome::Returned {
             hash,
